@@ -4,23 +4,32 @@ import json, os, sys
 HERE = os.path.dirname(os.path.dirname(os.path.abspath(__file__)))
 sys.path.insert(0, os.path.join(HERE, 'lib'))
 import meta
+import jobs
 
 BASELINE = "cd /repo && cargo nextest run --workspace --no-fail-fast --tool-config-file pb:/w/lib/nextest.toml --profile pb --test-threads 8 --offline  (fallback: cargo test --workspace --no-fail-fast --offline)"
 checks = []
 for pid in sorted(meta.CLAIMED):
     m = meta.CLAIMED[pid]
+    pj = [j for j in jobs.all_jobs() if pid in j['props']]
+    bounded = sorted(j['id'] for j in pj if j['cls'] == 'bounded')
+    finite = sorted(j['id'] for j in pj if j['cls'] == 'proof')
+    technique = 'contract-based deductive verification: Verus discharges requires/ensures/invariants spliced onto the real functions lifted mechanically from /repo on every run'
+    if finite:
+        technique += '; finite domains enumerated completely on the real code (%s)' % ', '.join(finite)
+    if bounded:
+        technique += '; bounded native enumeration of the real code as a labelled stand-in for code outside the verifier, never counted as proved (%s)' % ', '.join(bounded)
     checks.append(dict(
         property_id=pid,
         quick_cmd='./check %s --tier quick' % pid,
         thorough_cmd='./check %s --tier thorough' % pid,
         evidence_file='/verif/evidence/%s.json' % pid,
         replay_cmd_template='./check %s --replay {path}' % pid,
-        engine='verus' + ('+native-bounded' if m.get('bounded') else ''),
+        engine='verus' + ('+native-bounded' if bounded else ''),
         level_claimed=dict(category=m.get('level', 'proof'),
                            text=m.get('text', 'Verus discharges the contracts spliced onto the functions lifted mechanically from /repo on every run; see DESIGN.md'),
                            design_ref=m.get('design_ref', 'DESIGN.md section 3, ' + pid)),
         level_note=m.get('note', '; '.join(m.get('assumptions', []))),
-        technique=m.get('technique', 'contract-based deductive verification (Verus) of mechanically lifted real functions'),
+        technique=m.get('technique', technique),
     ))
 na = [dict(property_id=k, reason=v) for k, v in sorted(meta.NOT_APPLICABLE.items())]
 na += [dict(property_id=k, reason=v) for k, v in sorted(meta.PENDING.items()) if k not in meta.CLAIMED]
